@@ -31,6 +31,18 @@ def install(M):
             raise_builtin(what, 'argument out of range')
         if signed:
             t = z3.If(t < 0, t + 256 ** w, t)
+        from .values import digits_hint
+        octs = digits_hint(t, w)
+        if octs is not None:
+            def at_h(i, octs=octs):
+                if z3.is_int_value(i):
+                    k = i.as_long()
+                    return octs[k] if 0 <= k < len(octs) else z3.IntVal(0)
+                e = z3.IntVal(0)
+                for k in range(len(octs) - 1, -1, -1):
+                    e = z3.If(i == k, octs[k], e)
+                return e
+            return SBytes(w, at_h)
 
         def at(i, t=t, w=w):
             if z3.is_int_value(i):
